@@ -182,7 +182,7 @@ fn elias_fano(ctx: &mut Ctx, nmax: usize, umax: usize) {
 }
 
 fn edge_arith<S: sux::utils::Sig, E: ShardEdge<S, 3>>(ctx: &mut Ctx, name: &str, sharded_default: bool, mwhc: bool, thorough: bool) {
-    let mut ns: Vec<usize> = (0..=if thorough { 1_000_000 } else { 60_000 }).collect();
+    let mut ns: Vec<usize> = (0..=if thorough { 4_000_000 } else { 60_000 }).collect();
     let mut x = ns.len() as f64;
     while x < 1e12 {
         ns.push(x as usize);
@@ -398,7 +398,7 @@ fn main() {
     let mut ctx = Ctx::from_args();
     start_watchdog(300);
     let t = ctx.thorough();
-    let mut lens: Vec<usize> = (0..=if t { 70_000 } else { 5_000 }).collect();
+    let mut lens: Vec<usize> = (0..=if t { 200_000 } else { 5_000 }).collect();
     for k in 13..=26u32 {
         let p = 1usize << k;
         lens.extend([p - 1, p, p + 1]);
